@@ -184,9 +184,15 @@ func runSeq(body string) string {
 // ---------------------------------------------------------------- sort
 
 const sortLib = `
+function mkVal(s){return (s==="u")?undefined:{k:s[0],t:s[1]}}
+function installProto(a,where,items){ // indexed properties on the prototype chain of the receiver
+ var P;
+ if(where==="array")P=Array.prototype;else if(where==="object")P=Object.prototype;
+ else{P=Object.create(Object.getPrototypeOf(a));Object.setPrototypeOf(a,P)}
+ for(var i=0;i<items.length;i++)P[items[i][0]]=mkVal(items[i][1]);return a}
 function mkElems(spec){ // spec: array of "n"(hole) | "u" | [key,tag]
  var out=[];out.length=spec.length;for(var i=0;i<spec.length;i++){var s=spec[i];if(s==="n")continue;out[i]=(s==="u")?undefined:{k:s[0],t:s[1]}}return out}
-function elemStr(a){var o=[];for(var i=0;i<a.length;i++){if(!(i in a))o.push("n");else if(a[i]===undefined)o.push("u");else o.push(a[i].k+"."+a[i].t)}return o.join(",")}
+function elemStr(a){var o=[];for(var i=0;i<a.length;i++){if(!Object.prototype.hasOwnProperty.call(a,i))o.push("n");else if(a[i]===undefined)o.push("u");else o.push(a[i].k+"."+a[i].t)}return o.join(",")}
 var calls=0;
 var CMP={
  asc:function(x,y){calls++;return x.k-y.k},
@@ -207,6 +213,8 @@ type sortCase struct {
 	Cmp    string        `json:"cmp"`
 	Elems  []interface{} `json:"elems"`
 	Mutate string        `json:"mutate"` // "", "shrink", "grow", "sparse", "throw"
+	PWhere string        `json:"pwhere"` // "", "array", "object", "custom": where inherited indexed properties live
+	PItems []interface{} `json:"pitems"` // [[idx, elem], ...]
 	Seed   int           `json:"seed"`
 }
 
@@ -226,6 +234,10 @@ func runSort(js string) string {
 		setup += "a[70000]=1;delete a[70000];a.length=spec.length;"
 	case "arraylike":
 		setup += "var b={length:a.length};for(var i=0;i<a.length;i++)if(i in a)b[i]=a[i];a=b;"
+	}
+	if c.PWhere != "" && c.Recv != "goslice" {
+		pb, _ := json.Marshal(c.PItems)
+		setup += fmt.Sprintf("a=installProto(a,%q,%s);", c.PWhere, string(pb))
 	}
 	if _, err := vm.RunString(setup); err != nil {
 		return "ERR setup " + common.OneLine(err.Error())
